@@ -507,8 +507,8 @@ pub fn run(ctx: &mut Ctx) {
     ];
     ctx.run_regressions::<MockLedger>();
     ctx.run_regressions::<MockExchangeRun>();
-    ctx.run::<MockLedger>(ctx.tier.pick(5_000, 120_000));
-    ctx.run::<MockExchangeRun>(ctx.tier.pick(600, 15_000));
+    ctx.run::<MockLedger>(ctx.tier.pick(100_000, 1_500_000));
+    ctx.run::<MockExchangeRun>(ctx.tier.pick(15_000, 250_000));
 }
 
 pub fn replay(ctx: &mut Ctx, doc: &Value) -> bool {
